@@ -16,6 +16,9 @@
 //	crash <hs|cs> <h> <name>[.<i>]  kill the latest boot right before the i-th step called <name> at (phase, h);
 //	                                restart (NewNode + Start), let it recover and finish the script
 //	back                            forget the restarts: the latest boot is the reference run again
+//	tear <h> <wP|wB|wV|wC>[.<i>]    kill #1 in the MIDDLE of writing that WAL record of height h (half of it reaches the
+//	                                file); restart; kill #2 right before the same height's SaveBlock; restart.
+//	                                → r1=<ok|stuck> r2=<ok|stuck|err:wal-corrupt>; ends the case's boots
 //	mix <b> <s> <a>                 handshake only (NewNode), on block store / state DB / application DB taken
 //	                                from the ends of heights b / s / a of the reference run
 //
@@ -42,6 +45,7 @@
 //	VIOL:apphash           … or the app hash is not the uncrashed run's at that height
 //	VIOL:block-changed     a block that was in the store at the kill is different afterwards
 //	VIOL:stuck-first-height / stuck-no-marker / stuck   the restarted node stops committing
+//	VIOL:wal-corrupt       OnStart returns a DataCorruptionError: the node does not start until the WAL is repaired
 //	VIOL:chain-diverged    it commits other txs / other app hashes than the uncrashed run
 //	VIOL:double-sign       two signatures for the same height/round/step over different content
 package main
@@ -124,7 +128,17 @@ func genesisWorld() *durable {
 		key: genesisCache.key, genesis: genesisCache.genesis}
 }
 
+var stdoutSwapped bool
+
 func reset() {
+	// the consensus code prints WAL repair instructions with fmt.Println: keep the protocol stream clean
+	// (the kit's writer already holds the real stdout)
+	if !stdoutSwapped {
+		stdoutSwapped = true
+		if f, err := os.OpenFile(os.DevNull, os.O_WRONLY, 0); err == nil {
+			os.Stdout = f
+		}
+	}
 	if cs != nil && cs.base != "" {
 		os.RemoveAll(cs.base)
 	}
@@ -176,7 +190,9 @@ func mergeEvents(b *boot, final *durable) []mEvent {
 	}
 	emitRecs := func(upto int, phase string, h int64) {
 		for ri < len(recs) && recs[ri].end <= upto {
-			if n := walName(recs[ri].kind); n != "" {
+			// a vote signed again during WAL replay can reach the WAL after its height is over (it is
+			// ignored as a duplicate there): records of other heights are not steps of this height
+			if n := walName(recs[ri].kind); n != "" && (n == "wE" || recs[ri].h == h) {
 				out = append(out, mEvent{phase: phase, h: h, name: n, walOff: recs[ri].off})
 			}
 			ri++
@@ -641,6 +657,91 @@ func opMix(toks []string) (string, string) {
 	return fmt.Sprintf("hs=%d/%d post=%s hash=%s", b.hsCommits, b.hsInits, tripleStr(b.post), hashDec(b.post.stateHash)), "-"
 }
 
+// opTear: kill #1 in the middle of writing a WAL record of height h (half of its bytes reach the file);
+// restart; kill #2 right before that height's SaveBlock; restart.
+func opTear(toks []string) (string, string) {
+	if len(toks) != 2 || cs == nil || cs.cur == nil {
+		return "err:badop", "-"
+	}
+	_, h, name, idx, ok := parseAddr([]string{"cs", toks[0], toks[1]})
+	if !ok || (name != "wP" && name != "wB" && name != "wV" && name != "wC") {
+		return "err:badop", "-"
+	}
+	if cs.cur.dead {
+		return "err:dead", "-"
+	}
+	if !supported(cs.cur, "cs", h) {
+		return "err:unsupported", "-"
+	}
+	j := findEvent(cs.cur, "cs", h, name, idx)
+	if j < 0 {
+		return "err:noevent", "-"
+	}
+	cur := cs.cur
+	cs.cur = &bootInfo{dead: true}
+	world := worldBefore(cur, j)
+	// the full record is in the next snapshot's (or the final) WAL copy
+	var full []byte
+	for k := j + 1; k < len(cur.evs) && full == nil; k++ {
+		if cur.evs[k].snap != nil {
+			full = cur.evs[k].snap.wal
+		}
+	}
+	if full == nil {
+		full = cur.final.wal
+	}
+	for _, r := range parseWAL(full) {
+		if r.off == cur.evs[j].walOff {
+			world.wal = append([]byte(nil), full[:r.off+(r.end-r.off)/2]...)
+		}
+	}
+	r1 := runBoot(world, cur.signLog, false)
+	if r1.b.hsErr != "" {
+		return "r1=" + r1.b.hsErr + " r2=-", "VIOL:restart-failed " + r1.b.hsErr
+	}
+	if !r1.live {
+		cls := "stuck"
+		if !hasMarker(world.wal, r1.b.post.state+1) {
+			cls = "stuck-no-marker"
+			if r1.b.post.state == 0 {
+				cls = "stuck-first-height"
+			}
+		}
+		return "r1=stuck r2=-", "VIOL:" + cls + " after a torn WAL record"
+	}
+	j2 := findEvent(r1.info, "cs", r1.b.post.state+1, "bsH", 0)
+	if j2 < 0 {
+		return "r1=ok r2=-", "-"
+	}
+	w2 := worldBefore(r1.info, j2)
+	b := newBoot(cs.base, w2, r1.info.signLog)
+	b.handshake(nil)
+	if b.hsErr != "" {
+		b.stop()
+		return "r1=ok r2=" + b.hsErr, "VIOL:restart-failed " + b.hsErr
+	}
+	if err := b.node.Start(); err != nil {
+		b.stop()
+		if strings.Contains(err.Error(), "DataCorruptionError") {
+			return "r1=ok r2=err:wal-corrupt", "VIOL:wal-corrupt the node does not start any more: " + classify(err.Error())
+		}
+		return "r1=ok r2=err:start", "VIOL:restart-failed " + classify(err.Error())
+	}
+	live := b.drive(cs.script, patience, nil)
+	b.stop()
+	if !live {
+		cls := "stuck"
+		if !hasMarker(w2.wal, b.post.state+1) {
+			cls = "stuck-no-marker"
+			if b.post.state == 0 {
+				cls = "stuck-first-height"
+			}
+		}
+		return "r1=ok r2=stuck", "VIOL:" + cls + " after a torn WAL record and a second kill"
+	}
+	return "r1=ok r2=ok", "ok"
+}
+
 func execOp(toks []string) (string, string) {
 	if len(toks) == 0 {
 		return "err:badop", "-"
@@ -654,6 +755,8 @@ func execOp(toks []string) (string, string) {
 		return opCrash(toks[1:])
 	case "mix":
 		return opMix(toks[1:])
+	case "tear":
+		return opTear(toks[1:])
 	case "back":
 		if cs == nil || cs.ref == nil || len(toks) != 1 {
 			return "err:badop", "-"
